@@ -182,7 +182,8 @@ func (d *drv) random(t int, rnd *rand.Rand, perTrace int) {
 	}
 	for _, s := range []string{"", " ", "\t", "()", "(", ")", "!", "&&", "a", "a ==", `a == "`, `a == 'x`, "has()", "has(", "all(", "global(",
 		"all( )", "global(\t)", "has( a )", "a in {}", "a not in {}", "a notin {}", `a in {"x",}`, `a in {,}`, `a in {"x" "y"}`, "\n",
-		`!(!has(a))`, `!(!(!has(a)))`, `!((!has(a)))`, `!( !a == "x" )`, `!(!(a == "x" && has(b)))`, `!(!(!(!all())))`, `!!(!has(a))`, `!(!!has(a))`,
+		`has(a) has(b)`, `all() )`, `a == "b")`, `a in {"x"} }`, `a == "b" "c"`, `a not in {"a","a","b","b","c"}`, `a in {"c","b","b","a"}`,
+		`a not in {"b","a"}`, `!(!has(a))`, `!(!(!has(a)))`, `!((!has(a)))`, `!( !a == "x" )`, `!(!(a == "x" && has(b)))`, `!(!(!(!all())))`, `!!(!has(a))`, `!(!!has(a))`,
 		`a == "x"` + "\n", strings.Repeat("a", 512) + ` == "x"`, strings.Repeat("a", 513) + ` == "x"`, "has(" + strings.Repeat("b", 513) + ")"} {
 		d.expr(s, "fixed")
 	}
@@ -218,7 +219,7 @@ func main() {
 		t++
 		d.start(t, []string{"a", "b"}, []string{"x", "xy"})
 		rnd := rand.New(rand.NewSource(env.Seed*7919 + int64(bi)))
-		for _, op := range b {
+		for ai, op := range b {
 			if tracelog.Str(op["op"]) != "ast" {
 				continue
 			}
@@ -237,6 +238,20 @@ func main() {
 			// single dropped token (mostly rejected texts, for the Validate == Parse clause)
 			pst := selgen.PlainStyle()
 			toks := selgen.Tokens(ast, pst)
+			if !d.restr {
+				// a complete expression followed by one more token (all of them for the leaves, two per
+				// other tree, rotating through the list)
+				if ast.Op != "not" && ast.Op != "and" && ast.Op != "or" {
+					for _, tr := range selgen.Trailers {
+						d.expr(selgen.Join(append(append([]string{}, toks...), tr), pst), "tlc-trail")
+					}
+				} else {
+					for k := 0; k < 2; k++ {
+						tr := selgen.Trailers[(ai*2+k)%len(selgen.Trailers)]
+						d.expr(selgen.Join(append(append([]string{}, toks...), tr), pst), "tlc-trail")
+					}
+				}
+			}
 			for i := 0; i < len(toks) && !d.restr; i++ {
 				d.expr(selgen.Join(toks[:i], pst), "tlc-prefix")
 				drop := append(append([]string{}, toks[:i]...), toks[i+1:]...)
